@@ -33,6 +33,7 @@ CATALOGUE = {
     # keys holding a tab: ("so\tuth", "lee") and ("so", "uth\tlee") are different keys although their texts joined by a tab are equal
     "kt1": ({"type": "Text", "length": [[1, 6, False]]}, 6, ["so\tuth", "so", "x"], [""]),
     "kt2": ({"type": "Text", "length": [[1, 7, False]]}, 7, ["lee", "uth\tlee"], [""]),
+    "KA": ({"type": "Text", "length": [[1, 2, False]]}, 2, ["x", "y"], [""]),  # declared next to 'ka': names are case sensitive
     "kc": ({"type": "Integer", "rule": {"items": [[0, 9, False]]}}, 1, ["1", "2"], ["z"]),
     "v": ({"type": "Text", "length": [[1, 1, True]]}, 1, ["p", "q", "r", "s", "t"], [""]),
     "memo": ({"type": "Text", "length": [[1, 40, False]]}, 32, ["\nbig  red\n\nbox", "very  fragile\u2028handle with care\x85", "a\tb c"], [""]),
@@ -79,7 +80,7 @@ def decls_for(config):
 def cid_rows_of(config, decls=None):
     decls = decls or decls_for(config)
     extra = list(config.get("extra", ()))
-    return harness.cid_rows(config["preset"], decls, config.get("checks", ()), config.get("header", 0), extra=extra, allowed=config.get("allowed"),
+    return harness.cid_rows(config["preset"], decls, config.get("checks", ()), config.get("header", 0), extra=extra, allowed=config.get("allowed"), allowed_quoted=bool(config.get("allowed_quoted")),
                             line_delimiter=config.get("line_delimiter", "lf") if config["preset"] in ("delimited", "fixed", "delimited_de", "delimited_us", "fixed_de") else None)
 
 
@@ -98,7 +99,7 @@ def store(config, decls, table, name="data"):
             writer.writerow(row)
         return harness.NamedStringIO(stream.getvalue(), name + ".csv"), name + ".csv"
     if fmt == "fixed":
-        text = "".join("".join(cell.ljust(decl["width"]) for cell, decl in zip(row, decls)) + ("" if config.get("line_delimiter") == "none" else "\n") for row in table)
+        text = "".join("".join(cell.ljust(decl["width"]) for cell, decl in zip(row, decls)) + ("" if config.get("line_delimiter") == "none" else config.get("line_end", "\n")) for row in table)
         return harness.NamedStringIO(text, name + ".txt"), name + ".txt"
     if fmt == "ods":
         path = os.path.join(tmpdir(), name + ".ods")
